@@ -230,35 +230,35 @@ fn known_nested_clear() {
 
 harnesses! {
     // ---- C05-U (i): failed attempts with mixed stack effects, abstract children, vs the by-value reference
-    #[kani::unwind(8)] fn c05_choice_poppush() [T0 S] : "Q|Choice2<Seq3<pop,push,x>, depth-reader>: a failed first alternative that popped and pushed leaves no trace; depth 2" {
+    #[kani::unwind(5)] fn c05_choice_poppush() [T0 S] : "Q|Choice2<Seq3<pop,push,x>, depth-reader>: a failed first alternative that popped and pushed leaves no trace; depth 2" {
         abs3::<Choice2<PopPushX, Abs<1, 3>>, RChoice2<RPopPushX, RAbs<1, 3>>>(FREE, 2) }
-    #[kani::unwind(8)] fn c05_choice3_mixed() [T0 S] : "Q|Choice3<Seq3<push,push,x>, Seq3<pop,pop,x>, pop>; depth 2" {
+    #[kani::unwind(5)] fn c05_choice3_mixed() [T0 S] : "Q|Choice3<Seq3<push,push,x>, Seq3<pop,pop,x>, pop>; depth 2" {
         abs3::<Choice3<PushPushX, PopPopX, Abs<2, 2>>, RChoice3<RPushPushX, RPopPopX, RAbs<2, 2>>>(FREE, 2) }
-    #[kani::unwind(8)] fn c05_option_then_pop() [T0 S] : "Q|Seq2<Option<Seq3<pop,push,x>>, pop>: the entry the optional body replaced is back for the following POP; depth 1" {
+    #[kani::unwind(5)] fn c05_option_then_pop() [T0 S] : "Q|Seq2<Option<Seq3<pop,push,x>>, pop>: the entry the optional body replaced is back for the following POP; depth 1" {
         abs3::<Seq2<Nk<Option<PopPushX>>, Nk<Abs<2, 2>>>, RSeq2<RSk, 0, ROpt<RPopPushX>, RAbs<2, 2>>>(FREE, 1) }
-    #[kani::unwind(8)] fn c05_option_poppop() [T0 S] : "Q|Option<Seq3<pop,pop,x>>; depth 2" {
+    #[kani::unwind(5)] fn c05_option_poppop() [T0 S] : "Q|Option<Seq3<pop,pop,x>>; depth 2" {
         abs3nf::<Option<PopPopX>, ROpt<RPopPopX>>(FREE, 2) }
-    #[kani::unwind(8)] fn c05_rep_poppush_skip() [T0 S] : "Q|Rep<Seq3<pop,push,x>> with skip: a failed iteration gives back skip, pop and push; depth 1" {
+    #[kani::unwind(5)] fn c05_rep_poppush_skip() [T0 S] : "Q|Rep<Seq3<pop,push,x>> with skip: a failed iteration gives back skip, pop and push; depth 1" {
         abs3nf::<RepMin<PopPushX, AbsSkip<3>, 1, 0>, RRep<RSk, 1, RPopPushX, 0, { usize::MAX }>>(PROG1, 1) }
-    #[kani::unwind(8)] fn c05_repminmax_pushpush() [T0 S] : "Q|RepMinMax<Seq3<push,push,x>,0,2>; depth 0" {
+    #[kani::unwind(5)] fn c05_repminmax_pushpush() [T0 S] : "Q|RepMinMax<Seq3<push,push,x>,0,2>; depth 0" {
         abs3nf::<RepMinMax<PushPushX, AbsSkip<3>, 0, 0, 2>, RRep<RSk, 0, RPushPushX, 0, 2>>(FREE, 0) }
-    #[kani::unwind(8)] fn c05_atomic_repeat_poppush() [T0 S] : "Q|AtomicRepeat<Seq3<pop,push,x>>; depth 1" {
+    #[kani::unwind(5)] fn c05_atomic_repeat_poppush() [T0 S] : "Q|AtomicRepeat<Seq3<pop,push,x>>; depth 1" {
         abs3nf::<AtomicRepeat<PopPushX>, RRep<REmpty, 0, RPopPushX, 0, { usize::MAX }>>(PROG1, 1) }
-    #[kani::unwind(8)] fn c05_pos_in_seq() [T0 S] : "Q|Seq3<&Seq3<pop,push,x>, depth-reader, pop>: a successful lookahead leaves the stack untouched; depth 2" {
+    #[kani::unwind(5)] fn c05_pos_in_seq() [T0 S] : "Q|Seq3<&Seq3<pop,push,x>, depth-reader, pop>: a successful lookahead leaves the stack untouched; depth 2" {
         abs3::<Seq3<Nk<Positive<PopPushX>>, Nk<Abs<1, 3>>, Nk<Abs<2, 2>>>, RSeq3<RSk, 0, RPos<RPopPushX>, RAbs<1, 3>, RAbs<2, 2>>>(FREE, 2) }
-    #[kani::unwind(8)] fn c05_neg_in_choice() [T0 S] : "Q|Choice2<Seq2<!Seq3<pop,pop,x>, push>, pop>; depth 2" {
+    #[kani::unwind(5)] fn c05_neg_in_choice() [T0 S] : "Q|Choice2<Seq2<!Seq3<pop,pop,x>, push>, pop>; depth 2" {
         abs3::<Choice2<Seq2<Nk<Negative<PopPopX>>, Nk<Abs<1, 1>>>, Abs<2, 2>>, RChoice2<RSeq2<RSk, 0, RNeg<RPopPopX>, RAbs<1, 1>>, RAbs<2, 2>>>(FREE, 2) }
-    #[kani::unwind(8)] fn c05_nested_twice() [T0 S] : "Q|Choice2<Seq2<Option<Choice2<Seq3<pop,push,x>, pop>>, x>, depth-reader>: two nested restores; depth 2" {
+    #[kani::unwind(5)] fn c05_nested_twice() [T0 S] : "Q|Choice2<Seq2<Option<Choice2<Seq3<pop,push,x>, pop>>, x>, depth-reader>: two nested restores; depth 2" {
         abs3::<Choice2<Seq2<Nk<Option<Choice2<PopPushX, Abs<0, 2>>>>, Nk<Abs<2, 0>>>, Abs<1, 3>>,
                RChoice2<RSeq2<RSk, 0, ROpt<RChoice2<RPopPushX, RAbs<0, 2>>>, RAbs<2, 0>>, RAbs<1, 3>>>(FREE, 2) }
     // ---- C05-U (ii): predicates / exhausted choices restore whatever the verdict
-    #[kani::unwind(8)] fn c05_positive_restores() [T0 S] : "Q|Positive<Seq3<pop,push,x>> returns with the stack as it was, matched or not (parse and check); depth 2" {
+    #[kani::unwind(5)] fn c05_positive_restores() [T0 S] : "Q|Positive<Seq3<pop,push,x>> returns with the stack as it was, matched or not (parse and check); depth 2" {
         always_restores::<Positive<PopPushX>>(2) }
-    #[kani::unwind(8)] fn c05_negative_restores() [T0 S] : "Q|Negative<Seq3<pop,pop,x>> returns with the stack as it was, matched or not; depth 2" {
+    #[kani::unwind(5)] fn c05_negative_restores() [T0 S] : "Q|Negative<Seq3<pop,pop,x>> returns with the stack as it was, matched or not; depth 2" {
         always_restores::<Negative<PopPopX>>(2) }
-    #[kani::unwind(8)] fn c05_negative_restores_push() [T0 S] : "Q|Negative<Seq3<push,push,x>>; depth 0" {
+    #[kani::unwind(5)] fn c05_negative_restores_push() [T0 S] : "Q|Negative<Seq3<push,push,x>>; depth 0" {
         always_restores::<Negative<PushPushX>>(0) }
-    #[kani::unwind(8)] fn c05_failed_choice_restores() [T0 S] : "Q|Choice3 with every alternative failing after stack effects leaves the stack as it was; depth 2" {
+    #[kani::unwind(5)] fn c05_failed_choice_restores() [T0 S] : "Q|Choice3 with every alternative failing after stack effects leaves the stack as it was; depth 2" {
         failed_choice_restores::<Choice3<PopPushX, PushPushX, PopPopX>>(2) }
     // ---- C05-S: the real pest::Stack against the model
     #[kani::unwind(8)] fn c05_s_stack_free_0_3() [] : "Q|real pest::Stack<u8> == copy-on-snapshot model under every well-nested schedule of 3 operations {push v,pop,snapshot,clear_snapshot,restore} from the empty stack (the one characterised pest defect, KF-C05-1, assumed away)" {
